@@ -39,7 +39,10 @@ L2all == TLCEval({s \in [1..2 -> Grid] : s[1] # s[2]})
 L3m == TLCEval({s \in [1..3 -> Grid] : HashL(s, 1) % (M3 \div 8) = 2 /\ Simple(s)})
 AllInside(l, P) == \A i \in 1..Len(l) : InRings(l[i], RingsOf(P))
 InsideCases == {[kind |-> "clip", lines |-> <<l>>, ml |-> FALSE, poly |-> P] : l \in {x \in L2all \cup L3m : TRUE}, P \in Tricky}
-GenInit == /\ c \in {x \in Single \cup Multi : GeneralPosition(x.lines, RingsOf(x.poly))}
+(* the same cases at other magnitudes: the harness multiplies every coordinate by 2^sh (exact) and divides the result again *)
+Scaled == {[kind |-> "clip", lines |-> x.lines, ml |-> x.ml, poly |-> x.poly, sh |-> s] :
+              x \in {y \in Single : HashL(y.lines[1], 1) % 3 = 0}, s \in {-20, 20}}
+GenInit == /\ c \in {x \in Single \cup Multi \cup Scaled : GeneralPosition(x.lines, RingsOf(x.poly))}
                    \cup {x \in InsideCases : AllInside(x.lines[1], x.poly) /\ GeneralPosition(x.lines, RingsOf(x.poly))}
            /\ PrintT(ToJson(c))
 GenSpec == GenInit /\ [][UNCHANGED c]_c
